@@ -145,15 +145,15 @@ func ruleDeltaAtomic(c *Ctx, ix *PkgIndex, rule string) {
 		}
 		// emptying after the read-out, with no release in between; all under the lock
 		recv := fn.Recv()
-		mu := varKey(recv) + a.ownMu
+		mu := varKey(recv) + resolvePath(ix.Pkg, a.typ, a.ownMu)
 		if a.ownMu == "" {
-			mu = varKey(recv) + ".lastValue.Mutex"
+			mu = varKey(recv) + resolvePath(ix.Pkg, a.typ, ".lastValue.Mutex")
 		}
 		// the function analysed may be the embedded type's method this one forwards to: the mutex path is relative to its receiver
 		if rn := namedOf(recv.Type()); rn != nil && rn.Obj().Name() != a.typ {
 			for _, b := range aggSpecs {
 				if b.typ == rn.Obj().Name() && b.ownMu != "" {
-					mu = varKey(recv) + b.ownMu
+					mu = varKey(recv) + resolvePath(ix.Pkg, b.typ, b.ownMu)
 				}
 			}
 		}
@@ -616,7 +616,7 @@ func c02(c *Ctx) {
 			ok, why := totalFanout(g, comp[0])
 			c.Check(ok, "R6", "sdk/metric|(*pipeline).produce|compAgg called for every instrument", at(mx.M, comp[0].N.Pos()), "the n > 0 test only filters output", "an instrument's aggregation can be skipped (its delta state is never reset / values never reported): "+why)
 			held := mle.Held(fn)[comp[0]]
-			c.Check(held[varKey(fn.Recv())+".Mutex"], "R6", "sdk/metric|(*pipeline).produce|collection under the pipeline lock", at(mx.M, comp[0].N.Pos()), "pipeline lock held", "collection runs without the pipeline lock")
+			c.Check(held[varKey(fn.Recv())+resolvePath(mx.Pkg, "pipeline", ".Mutex")], "R6", "sdk/metric|(*pipeline).produce|collection under the pipeline lock", at(mx.M, comp[0].N.Pos()), "pipeline lock held", "collection runs without the pipeline lock")
 			// what the aggregations handed out is delivered: after compAgg ran (delta state is consumed by it) no path discards the
 			// output (empties/clears ScopeMetrics or drops the Resource)
 			rm := fn.Obj.Type().(*types.Signature).Params().At(1)
@@ -1126,7 +1126,7 @@ func ruleMeasureAtomic(c *Ctx, ax *PkgIndex, rule string) {
 			continue
 		}
 		g := ax.FG(fn)
-		mu := varKey(fn.Recv()) + sp.mu
+		mu := varKey(fn.Recv()) + resolvePath(ax.Pkg, sp.typ, sp.mu)
 		isWrite := func(n ast.Node) bool {
 			as, ok := n.(*ast.AssignStmt)
 			if !ok {
